@@ -125,19 +125,38 @@ def drain_rules(facts, rep):
         h, body = loops[0]
         reads = [(b, t) for b, t in dr.calls() if b in body and t.get("callee") == "std::io::Read::read"]
         good = len(reads) == 1
-        exits = []
-        for b in sorted(body):
-            t = dr.term(b)
-            if t and t["k"] == "switch":
-                for v, tg in t["targets"] + [["otherwise", t["otherwise"]]]:
-                    if tg not in body and (dr.term(tg) or {}).get("k") != "unreachable":
-                        exits.append((show(norm(exd.operand(t["discr"], (b, None)))), v))
-        ok_exit = [e for e in exits if e[0].startswith("ok(Read::read(") and e[1] == 0]
-        err_exit = [e for e in exits if e[0].startswith("discr(Read::read(") and e[1] == 1]
-        other = [e for e in exits if e not in ok_exit and e not in err_exit]
-        good = good and len(ok_exit) == 1 and not other
+        # path form (independent of how the loop is spelled): in the iteration in which the function leaves the loop, the read
+        # either failed or returned 0; a read that returned data is always followed by another trip round the loop
+        A_RD, A_N = r"^discr\(Read::read\(", r"^ok\(Read::read\("
+        bad_exits, cont, zero_exit = [], 0, 0
+        for p in paths(dr, max_loop=1):
+            segs, cur = [], []
+            for (a_, v_), pos_ in zip(p["decisions"], p["dpos"]):
+                if a_ == "#iter":
+                    segs.append(cur)
+                    cur = []
+                elif pos_ < len(p["blocks"]) and p["blocks"][pos_] in body:      # decisions taken inside the loop only
+                    cur.append((a_, v_))
+            segs.append(cur)
+            rsegs = [sg for sg in segs if any(re.search(A_RD, a_) or re.search(A_N, a_) for a_, _ in sg)]
+            if not rsegs:
+                continue
+            for sg in rsegs[:-1]:
+                if any(re.search(A_N, a_) and v_ != 0 for a_, v_ in sg):
+                    cont += 1
+            last = rsegs[-1]
+            failed = any(re.search(A_RD, a_) and v_ != 0 for a_, v_ in last)
+            zero = any(re.search(A_N, a_) and v_ == 0 for a_, v_ in last)
+            extra = [a_ for a_, _ in last if not (re.search(A_RD, a_) or re.search(A_N, a_))]
+            if zero:
+                zero_exit += 1
+            if not (failed or zero) or extra:
+                bad_exits.append(last)
+        other = bad_exits
+        exits = bad_exits
+        good = good and zero_exit >= 1 and cont >= 1 and not bad_exits
         ok &= rep.check(good, rule, "drain-until-eof", where(dr, dr.span), "the drain loop ends only at Ok(0) (or on an error)",
-                        "the drain loop of Drop for ZipFile can end on %s: a short read leaves the stream inside the entry" % (other or exits))
+                        "the drain loop of Drop for ZipFile can end on %s: a short read leaves the stream inside the entry" % (other or "no Ok(0) exit / no continuation"))
         # what is drained is the inner Take obtained through into_inner
         if reads:
             recv = norm(exd.operand(reads[0][1]["args"][0], (reads[0][0], None)))
@@ -199,10 +218,33 @@ def seq_rules(facts, rep):
     good = bool(short) and all([e for e in s if e["kind"] == "r"][0]["width"] == 4 for s in short)
     ok &= rep.check(good, rule, "end-of-entries-consumes-signature-only", where(st, st.span), "Ok(None) is returned after reading only the 4-byte signature",
                     "the entry reader's end-of-entries path reads more or less than the signature")
-    sw = find_switch_on(st, lambda d: d[0] == "ok" and any(x[0] == "call" and x[1].endswith("read_u32") for x in walk(d)))
-    vals = sorted(val for val, _ in sw[0][1]["targets"]) if sw else []
-    ok &= rep.check(vals == sorted([67324752, 33639248]), rule, "signature-dispatch", where(st, st.span), "local signature => entry, central signature => end of entries, else error",
-                    "entry reader dispatches on signatures %s" % [hex(x) for x in vals])
+    # dispatch table over the first 4 bytes, however it is spelled (match / if chain)
+    LFH, CDH = 67324752, 33639248
+    A_SIG = r"^ok\(ReadBytesExt::read_u32\(reader\)\)$"
+    rows = {"local": [], "central": [], "other": []}
+    for p in paths(st):
+        eq, excl = None, set()
+        for a_, v_ in p["decisions"]:
+            if a_ != "#iter" and re.search(A_SIG, a_):
+                if isinstance(v_, tuple):
+                    excl |= set(v_[1])
+                elif eq is None:
+                    eq = v_
+        o = outcome(p)
+        nreads = len([e for e in p["effects"] if re.search(r"ReadBytesExt::read_|Read::read_exact$", e[1])])
+        if eq == CDH:
+            rows["central"].append(o[0] == "Ok" and o[1] is not None and o[1][0] == "agg" and o[1][1] == "adt:None" and nreads == 1)
+        elif eq == LFH:
+            rows["local"].append(nreads > 1 or o[0] in ("Err", "ErrProp"))
+        elif eq is None and {LFH, CDH} <= excl:
+            rows["other"].append(o[0] == "Err" and nreads == 1)
+        elif eq is None and not excl and nreads <= 1:
+            continue        # the signature read itself failed
+        else:
+            rows["other"].append(False)
+    good = all(rows[k] and all(rows[k]) for k in rows)
+    ok &= rep.check(good, rule, "signature-dispatch", where(st, st.span), "local signature => entry, central signature => end of entries, else error",
+                    "entry reader no longer dispatches local => entry / central => Ok(None) / anything else => error (%s)" % {k: (len(v), all(v)) for k, v in rows.items()})
     pc = facts.one(r"^read::stream::ZipStreamReader::<R>::parse_central_directory$")
     seqs = c.sequences(pc)
     full = [s for s in seqs if len([e for e in s if e["kind"] == "r"]) > 1]
